@@ -106,9 +106,13 @@ def first_weekday_on_or_after(a0, start, wd_name, path):
         cands = [s_ for s_ in T.subterms(D) if s_[0] in ('attr', 'sub', 'call') and s_ != W and not any(x_ == W for x_ in T.subterms(s_)) and
                  any(x_ == wd_name or x_ == ('var', 'weekday') for x_ in T.subterms(s_))]
         cands = [c_ for c_ in cands if not any(c_ != o_ and any(x_ == c_ for x_ in T.subterms(o_)) for o_ in cands)]
-        if len(cands) != 1:
+        if not cands:
+            # the number of the wanted weekday is a constant on this path (the member of an enumeration found by name): D = n - W with the constant inside n
+            I, imax = ZERO, 0
+        elif len(cands) != 1:
             return None
-        I = cands[0]
+        else:
+            I = cands[0]
     X = T.t_sub(I, W)
     try:
         c = T.t_sub(D, X)
@@ -172,7 +176,7 @@ def schedules(ctx):
         st_, en_ = V(params[0]), V(params[1])
         for pre in (True, False):
             ps = normal(summarise(ctx, fn, policy=pol, oracle=Valuation(facts={'pre_market': pre})))
-            if not ctx.require(1 <= len(ps) <= 8 if 1 <= len(ps) <= 8 else None, 'C13.S1', '%s has an accepting construction path (pre_market=%s)' % (c, pre), fn.site(),
+            if not ctx.require(1 <= len(ps) <= 40 if 1 <= len(ps) <= 40 else None, 'C13.S1', '%s has an accepting construction path (pre_market=%s)' % (c, pre), fn.site(),
                                [cond_str(p)[:80] for p in ps][:4]):
                 continue
             for p0 in ps:
@@ -198,7 +202,11 @@ def schedules(ctx):
                     up = ('call', ('meth', 'upper'), (V('weekday'),), ())
                     unread_wd = wdv is not None and wdv != up and any((s_[0] == 'sub' and s_[1][0] == 'var' and s_[1][1].startswith('class:')) or (s_[0] == 'call' and s_[1][0] == 'fn') or s_[0] == 'havoc'
                                                                       for s_ in T.subterms(wdv))
-                    if unread_wd:
+                    same_on_path = wdv is not None and wdv[0] == 'str' and any(v_ and x_[0] == 'cmp' and x_[1] == '==' and {x_[2], x_[3]} == {up, wdv} for x_, v_, _ in p0.conds)
+                    if same_on_path:
+                        # looked up by its upper-cased name and found: on this path the name kept IS the upper-cased keyword
+                        ctx.holds('C13.S2', 'the weekday used is the validated (upper-cased) one [%s]' % fmt(wdv), fn.site())
+                    elif unread_wd:
                         # the name goes through a lookup this rule does not evaluate (an enumeration member found by name, and a field of it handed back)
                         ctx.undecided('C13.S2', 'the weekday used is the validated (upper-cased) one', fn.site(), fmt(wdv)[:120])
                     else:
